@@ -95,18 +95,19 @@ end density
 
 /-! ### sufficient statistics -/
 
+/-- put `x` in front of the first section -/
+def consHead {β : Type} (x : β) : List (List β) → List (List β)
+  | g :: gs => (x :: g) :: gs
+  | [] => [[x]]
+
 /-- `torch.tensor_split(values, torch.where(mask == v)[0])`: cut `values` before every position whose
-mark is `v`.  The head of the result is the section that is open at the current position. -/
+mark is `v` (a mark at a position past the end of `values` still opens a new, empty, section).  The
+head of the result is the section that is open at the current position. -/
 def splitAtMarks {β : Type} (v : Int) : List Int → List β → List (List β)
   | [], vals => [vals]
-  | m :: ms, [] =>
-      match splitAtMarks v ms [] with
-      | g :: gs => if m = v then [] :: g :: gs else g :: gs
-      | [] => []
+  | m :: ms, [] => if m = v then [] :: splitAtMarks v ms [] else splitAtMarks v ms []
   | m :: ms, x :: xs =>
-      match splitAtMarks v ms xs with
-      | g :: gs => if m = v then [] :: (x :: g) :: gs else (x :: g) :: gs
-      | [] => []
+      if m = v then [] :: consHead x (splitAtMarks v ms xs) else consHead x (splitAtMarks v ms xs)
 
 section suff
 variable [Add α] [Sub α] [Mul α] [Div α] [Zero α] [IntCast α] [OfNat α 2] [LE α] [DecidableLE α]
@@ -131,8 +132,9 @@ def skyrideSuffStats (heights : List α) : List α × List Nat :=
 
 end suff
 
-/-- `Σ_g (ss_g / θ_g + c_g · log θ_g)`: what the block-update sampler takes for `−log p` -/
+/-- `Σ_g ss_g / θ_g + Σ_g c_g · log θ_g`: what the block-update sampler takes for `−log p` -/
 def reproduce [Add α] [Mul α] [Div α] [Zero α] [IntCast α] [Trans α] (θ ss : List α) (cnt : List Nat) : α :=
-  (zipWith3 (fun s (c : Nat) t => s / t + ((c : Int) : α) * Trans.log t) ss cnt θ).sum
+  (List.zipWith (fun s t => s / t) ss θ).sum
+    + (List.zipWith (fun (c : Nat) t => ((c : Int) : α) * Trans.log t) cnt θ).sum
 
 end TT.C20
